@@ -60,10 +60,10 @@ impl Property for StoreProp {
         match self.id {
             "C13" => "histories of remote inserts with out-of-order timestamps over 2 documents and 3 authors, prefix deletions, document removal and re-creation, reopen; after every step heads and has_news (random peer head reports) are compared with the model and with the specification (max timestamp of entries held); head sets with shared timestamps encoded under limits 0..120 and without limit, decode of random bytes; non-trivial = at least 3 entries inserted or a codec operation on >= 2 heads",
             "C16" => "stores with 4 documents with real key ids (0xFF-edged ids preferred) and 7 documents whose ids are hand-picked neighbours in byte order (P07FF, P0800, P0880, P08FF, P0900, FF..FE, FF..FF; read-only, populated through hook H6 with 6 neighbouring author ids), histories of writes, deletions, peers, policies, open/close, removal (refused while open) and re-creation; all observers (entries both index paths, heads, peers, policy, namespaces, content hashes) of all documents after every removal; non-trivial = a removal succeeded on a document that held entries",
-            "C17" => "sequences of 1-30 peer registrations with strictly increasing times over 1-9 distinct peers and 3 documents (one unknown), interleaved reads, reopen, removal and re-creation of a document (its list starts empty again); specification = five most recent distinct peers, most recent first; non-trivial = more than 5 distinct peers or a re-registration",
+            "C17" => "sequences of 1-30 peer registrations with strictly increasing times over 1-9 distinct peers and 3 documents (one unknown), interleaved reads, reopen, re-imports and upgrades of capabilities (the list is not affected), removal and re-creation of a document (its list starts empty again); specification = five most recent distinct peers, most recent first; non-trivial = more than 5 distinct peers or a re-registration",
             "C15" => "random policies (both kinds, 0-3 exact/prefix filters incl. empty and non-UTF-8 bytes) set/read on existing and unknown documents with reopen; policy x key match decisions; filter text round trips and parsing of malformed filter strings; non-trivial = policy with at least one filter",
             "C18" => "file stores built by histories of remote inserts (2 documents, 3 authors, deletion markers, equal timestamps) in which the head table and/or the by-key index are deleted with plain redb and the file is opened again 1-3 times; heads (timestamps and keys), key-ordered and latest-per-key queries, entries, peers, policies, namespaces and content hashes compared with the model (migration functions) and with the specifications (max timestamp; filter/sort/window); non-trivial = a derived table was dropped from a store with at least 2 entries",
-            "C07" => "sequences of capability imports (read/write) over 3 documents, open/close, reopen, local insert/delete attempts and remote inserts; kinds listed after every step; non-trivial = a read-only document saw a write attempt or an upgrade",
+            "C07" => "sequences of capability imports (read/write) over 3 documents, open/close, reopen, local insert/delete attempts and remote inserts, peer registrations and download policies (which an import must leave alone); kinds listed after every step, everything observable about every document at intervals; non-trivial = a read-only document saw a write attempt or an upgrade",
             _ => "",
         }.to_string()
     }
@@ -185,6 +185,11 @@ impl Property for StoreProp {
                     match rng.below(12) {
                         0..=8 => ops.push(Op::S(SOp::Peer { n: *rng.pick(&[0usize, 0, 0, 1, 2]), t, p: rng.below(npeers) as u8 })),
                         9 => ops.push(Op::S(SOp::Reopen)),
+                        11 if rng.chance(1, 2) => {
+                            // a capability is imported again (same kind, or the upgrade of the read-only
+                            // document): the list is not affected
+                            ops.push(Op::S(SOp::Import { n: rng.below(2), write: rng.chance(2, 3) }));
+                        }
                         10 if rng.chance(1, 2) => {
                             // the document is removed and created again: its list starts empty
                             let n = rng.below(2);
@@ -298,6 +303,9 @@ impl Property for StoreProp {
                         9 => ops.push(Op::S(SOp::LocalDelete { n, a: rng.below(3), key: gen_key(rng), ts: *rng.pick(&crate::c02::TIMES) })),
                         10..=12 => ops.push(Op::S(gen_put(rng, 3, 3))),
                         13 => ops.push(Op::S(SOp::Reopen)),
+                        // state that an import must leave alone: useful peers, download policy
+                        14 if rng.chance(1, 2) => ops.push(Op::S(SOp::Peer { n, t: 100 + ops.len() as u64, p: rng.below(4) as u8 })),
+                        14 => ops.push(Op::S(SOp::SetPolicy { n, pol: gen_pol(rng) })),
                         _ => ops.push(Op::S(SOp::ObserveAll)),
                     }
                 }
